@@ -13,6 +13,8 @@ type expressionStream struct {
 	expression string
 	index      int
 	err        error
+	// removed is the number of bytes normalizeLicense has cut out of expression before index
+	removed int
 }
 
 type token struct {
@@ -59,6 +61,11 @@ func scan(expression string) ([]token, error) {
 	return tokens, nil
 }
 
+// Return the position of index in the expression as it was passed in by the caller.
+func (exp *expressionStream) offset() int {
+	return exp.index + exp.removed
+}
+
 // Determine if expression has more to process.
 func (exp *expressionStream) hasMore() bool {
 	return exp.index < len(exp.expression)
@@ -99,7 +106,7 @@ func (exp *expressionStream) parseToken() *token {
 		return identifier
 	}
 
-	errmsg := fmt.Sprintf("unexpected '%c' at offset %d", exp.expression[exp.index], exp.index)
+	errmsg := fmt.Sprintf("unexpected '%c' at offset %d", exp.expression[exp.index], exp.offset())
 	exp.err = errors.New(errmsg)
 	return nil
 }
@@ -164,7 +171,7 @@ func (exp *expressionStream) readOperator() *token {
 func (exp *expressionStream) readID() string {
 	id := exp.readRegex("[A-Za-z0-9-.]+")
 	if len(id) == 0 {
-		errmsg := fmt.Sprintf("expected id at offset %d", exp.index)
+		errmsg := fmt.Sprintf("expected id at offset %d", exp.offset())
 		exp.err = errors.New(errmsg)
 		return ""
 	}
@@ -217,7 +224,7 @@ func (exp *expressionStream) readLicense() *token {
 
 	// license not found in indices, need to reset index since readID advanced it
 	exp.index = index
-	errmsg := fmt.Sprintf("unknown license '%s' at offset %d", license, exp.index)
+	errmsg := fmt.Sprintf("unknown license '%s' at offset %d", license, exp.offset())
 	exp.err = errors.New(errmsg)
 	return nil
 }
@@ -263,6 +270,7 @@ func (exp *expressionStream) normalizeLicense(license string) *token {
 				// keep the rest of the expression; a `+` directly after `-or-later` is redundant
 				newExpression += strings.TrimPrefix(exp.expression[exp.index:], "+")
 			}
+			exp.removed += len(exp.expression) - len(newExpression)
 			exp.expression = newExpression
 			// update index to remove `-or-later`; now pointing at the `+` operator
 			exp.index -= len("-or-later")
